@@ -17,6 +17,15 @@ use tokio::sync::mpsc as tmpsc;
 use tokio_tungstenite::tungstenite::Message as WsMsg;
 
 const WATCHDOG: Duration = Duration::from_secs(15);
+/// Once a hang was reported the remaining cases use a short watchdog for *call results and the
+/// subscriber* (the report is already made; this only bounds the run time of a failing run).
+static SAW_HANG: std::sync::atomic::AtomicBool = std::sync::atomic::AtomicBool::new(false);
+fn call_watchdog() -> Duration {
+    if SAW_HANG.load(std::sync::atomic::Ordering::Relaxed) { Duration::from_secs(2) } else { WATCHDOG }
+}
+fn saw_hang() {
+    SAW_HANG.store(true, std::sync::atomic::Ordering::Relaxed);
+}
 const CALL_TIMEOUT: Duration = Duration::from_secs(9);
 const KINDS: [&str; 3] = ["blocking", "async", "ws"];
 
@@ -44,7 +53,6 @@ enum Event {
     Done,
     SrvErr(String),
     Res(usize, Result<Value, RepeError>),
-    Aborted(usize),
     Fwd(Result<Option<Message>, RepeError>),
 }
 
@@ -235,6 +243,8 @@ struct Session {
     ev: smpsc::Receiver<Event>,
     /// results that arrived while waiting for something else
     stash: Vec<(usize, Result<Value, RepeError>)>,
+    /// server replies that arrived while waiting for a call result
+    srv_stash: std::collections::VecDeque<Event>,
     handles: Vec<(usize, tokio::task::JoinHandle<()>)>,
 }
 
@@ -254,7 +264,7 @@ impl H {
             1 => Cl::A(self.rt.block_on(AsyncClient::connect(addr)).map_err(|e| e.to_string())?),
             _ => Cl::W(self.rt.block_on(WebSocketClient::connect(&format!("ws://{}/", addr))).map_err(|e| e.to_string())?),
         };
-        Ok(Session { kind, cl, cmd, ev_tx, ev, stash: Vec::new(), handles: Vec::new() })
+        Ok(Session { kind, cl, cmd, ev_tx, ev, stash: Vec::new(), srv_stash: Default::default(), handles: Vec::new() })
     }
 }
 
@@ -310,6 +320,12 @@ impl Session {
     }
     /// Next server reply (Frames / Done / SrvErr); call results arriving meanwhile are stashed.
     fn srv(&mut self) -> Result<Event, String> {
+        if let Some(e) = self.srv_stash.pop_front() {
+            return match e {
+                Event::SrvErr(e) => Err(e),
+                e => Ok(e),
+            };
+        }
         let deadline = Instant::now() + WATCHDOG;
         loop {
             let left = deadline.saturating_duration_since(Instant::now());
@@ -344,7 +360,7 @@ impl Session {
             let left = deadline.saturating_duration_since(Instant::now());
             match self.ev.recv_timeout(left) {
                 Ok(Event::Res(c, r)) => return Some((c, r)),
-                Ok(_) => {}
+                Ok(e) => self.srv_stash.push_back(e),
                 Err(_) => return None,
             }
         }
@@ -468,7 +484,7 @@ fn run_mux_case(h: &H, out: &mut Out, idx: &str, case: &MuxCase) {
     // results
     let mut got: Vec<String> = vec!["HANG".into(); case.n];
     for _ in 0..case.n {
-        match s.res(WATCHDOG) {
+        match s.res(call_watchdog()) {
             None => break,
             Some((c, Ok(v))) => {
                 let tag = tag_of(&v).unwrap_or(-2);
@@ -488,7 +504,8 @@ fn run_mux_case(h: &H, out: &mut Out, idx: &str, case: &MuxCase) {
     }
     for (c, g) in got.iter().enumerate() {
         if g == "HANG" {
-            fail(out, "hang", format!("caller {} did not return within {:?}", c, WATCHDOG), &ids_s);
+            fail(out, "hang", format!("caller {} did not return within {:?}", c, call_watchdog()), &ids_s);
+            saw_hang();
         }
     }
     // subscriber
@@ -857,7 +874,7 @@ fn run_dead_case(h: &H, out: &mut Out, idx: &str, case: &DeadCase) {
     // every in-flight call must return
     let pending_calls = outcomes.iter().filter(|o| *o == "HANG").count();
     for _ in 0..pending_calls {
-        match s.res(WATCHDOG) {
+        match s.res(call_watchdog()) {
             Some((c, Ok(v))) => outcomes[c] = if tag_of(&v) == Some(c as i64) { "own".into() } else { "other".into() },
             Some((c, Err(e))) => {
                 out.count(&format!("deadconn.{}.errkind.{}", kname, io_kind(&e)));
@@ -869,7 +886,8 @@ fn run_dead_case(h: &H, out: &mut Out, idx: &str, case: &DeadCase) {
     for (c, o) in outcomes.iter().enumerate() {
         let expect_own = c < case.answered;
         if o == "HANG" {
-            out.oracle_fail(&format!("deadconn.{}.inflight_hang", kname), &format!("call {} still blocked {:?} after fault {} ({} in flight)", c, WATCHDOG, case.fault, case.n), &ops);
+            out.oracle_fail(&format!("deadconn.{}.inflight_hang", kname), &format!("call {} still blocked {:?} after fault {} ({} in flight)", c, call_watchdog(), case.fault, case.n), &ops);
+            saw_hang();
         } else if expect_own && o != "own" {
             out.oracle_fail(&format!("deadconn.{}.answered_call_lost", kname), &format!("call {} was answered before the fault but returned {}", c, o), &ops);
         } else if !expect_own && o != "Err" {
@@ -879,7 +897,7 @@ fn run_dead_case(h: &H, out: &mut Out, idx: &str, case: &DeadCase) {
     // one more call
     let late = case.n;
     s.call(h, late, req_body(late), tmo);
-    let later = match s.res(WATCHDOG) {
+    let later = match s.res(call_watchdog()) {
         Some((_, Ok(_))) => "own".to_string(),
         Some((_, Err(e))) => {
             out.count(&format!("deadconn.{}.later_errkind.{}", kname, io_kind(&e)));
@@ -888,7 +906,8 @@ fn run_dead_case(h: &H, out: &mut Out, idx: &str, case: &DeadCase) {
         None => "HANG".to_string(),
     };
     if later == "HANG" {
-        out.oracle_fail(&format!("deadconn.{}.later_hang", kname), &format!("a call made after fault {} blocked for {:?}", case.fault, WATCHDOG), &ops);
+        out.oracle_fail(&format!("deadconn.{}.later_hang", kname), &format!("a call made after fault {} blocked for {:?}", case.fault, call_watchdog()), &ops);
+        saw_hang();
     } else if later != "Err" {
         out.oracle_fail(&format!("deadconn.{}.later_not_error", kname), &format!("a call made after fault {} returned {}", case.fault, later), &ops);
     }
@@ -896,9 +915,10 @@ fn run_dead_case(h: &H, out: &mut Out, idx: &str, case: &DeadCase) {
     let sub_s = match sub.as_mut() {
         None => "-".to_string(),
         Some(rx) => {
+            let wd = call_watchdog();
             let r = h.rt.block_on(async {
                 loop {
-                    match tokio::time::timeout(WATCHDOG, rx.recv()).await {
+                    match tokio::time::timeout(wd, rx.recv()).await {
                         Ok(Some(_)) => continue,
                         Ok(None) => return "eof",
                         Err(_) => return "open",
@@ -906,7 +926,8 @@ fn run_dead_case(h: &H, out: &mut Out, idx: &str, case: &DeadCase) {
                 }
             });
             if r != "eof" {
-                out.oracle_fail("deadconn.ws.subscriber_open", &format!("notify subscriber saw no end-of-stream {:?} after fault {}", WATCHDOG, case.fault), &ops);
+                out.oracle_fail("deadconn.ws.subscriber_open", &format!("notify subscriber saw no end-of-stream {:?} after fault {}", wd, case.fault), &ops);
+                saw_hang();
             }
             r.to_string()
         }
@@ -932,36 +953,52 @@ fn residue_probe(h: &H, s: &mut Session, id: u64) -> Option<u64> {
         let r = cl.forward_message_with_timeout(&msg, CALL_TIMEOUT).await;
         let _ = tx.send(Event::Fwd(r));
     });
+    // one Read is outstanding until the probe's request (or a filler request) arrives; every server
+    // reply is consumed here so that the scripted server is idle again when we return
     s.send(Cmd::Read(1));
     let deadline = Instant::now() + WATCHDOG;
     let mut residue = None;
-    let mut answered = false;
-    loop {
+    let (mut need_frames, mut need_done, mut fwd_seen) = (true, false, false);
+    while !(fwd_seen && !need_frames && !need_done) {
         let left = deadline.saturating_duration_since(Instant::now());
         match s.ev.recv_timeout(left) {
             Ok(Event::Frames(f)) => {
-                // the probe was written: no entry was in the way; answer it
-                s.send(Cmd::Send(vec![response(f[0].h.id, false, 555, 555)]));
-                answered = true;
+                need_frames = false;
+                if f[0].h.id == id && caller_of(&f[0]) == Some(455) {
+                    // the probe was written: answer it (inert if the probe already returned)
+                    s.send(Cmd::Send(vec![response(f[0].h.id, false, 555, 555)]));
+                    need_done = true;
+                }
             }
-            Ok(Event::Fwd(Ok(_))) => {
-                residue = Some(0);
-                break;
+            Ok(Event::Done) => need_done = false,
+            Ok(Event::Fwd(r)) => {
+                fwd_seen = true;
+                residue = match r {
+                    Ok(_) => Some(0),
+                    Err(RepeError::Io(e)) if e.kind() == std::io::ErrorKind::AlreadyExists => Some(1),
+                    Err(_) => None,
+                };
+                if residue == Some(1) && need_frames {
+                    // refused before writing: feed the waiting Read a filler request
+                    s.call(h, 900, req_body(900), Some(Duration::from_millis(50)));
+                }
             }
-            Ok(Event::Fwd(Err(RepeError::Io(e)))) if e.kind() == std::io::ErrorKind::AlreadyExists => {
-                residue = Some(1);
-                break;
-            }
-            Ok(Event::Fwd(Err(_))) => break,
+            Ok(Event::Res(900, _)) => {}
             Ok(Event::Res(c, r)) => s.stash.push((c, r)),
             Ok(_) => {}
             Err(_) => break,
         }
     }
-    if residue == Some(1) && !answered {
-        // the server is still waiting for a frame that never comes: feed it one
-        s.call(h, 900, req_body(0), Some(Duration::from_millis(50)));
-        let _ = s.res(WATCHDOG);
+    // the filler's own result
+    if residue == Some(1) {
+        let t0 = Instant::now();
+        while t0.elapsed() < Duration::from_secs(2) {
+            match s.ev.recv_timeout(Duration::from_millis(100)) {
+                Ok(Event::Res(900, _)) => break,
+                Ok(Event::Res(c, r)) => s.stash.push((c, r)),
+                _ => {}
+            }
+        }
     }
     residue
 }
@@ -1050,7 +1087,13 @@ fn next_call(h: &H, s: &mut Session, out: &mut Out, kname: &str, ops: &[String],
                 }
                 s.send(Cmd::Send(vec![response(f[0].h.id, false, 1, 1)]));
                 let _ = s.srv_done();
-                break s.res(WATCHDOG);
+                break loop {
+                    match s.res(call_watchdog()) {
+                        Some((1, r)) => break Some((1, r)),
+                        Some(_) => continue,
+                        None => break None,
+                    }
+                };
             }
             Err(_) => break s.res(Duration::from_millis(200)),
         }
